@@ -52,7 +52,9 @@ def solve_adaptive_save_every_step(solver, error, control=None, clip_dt=False):
         rejection_loop_apply = func.jit(loop.loop)
 
         solutions = []
-        while state.step_from.t < t1:
+        # Same continuation test as in solve_adaptive_save_at: a step that ends
+        # within eps before t1 has already been handled by the loop's at-t1 branch.
+        while state.step_from.t + eps < t1:
             solution, state = rejection_loop_apply(
                 state, t1=t1, eps=eps, atol=atol, rtol=rtol, damp=damp
             )
